@@ -27,8 +27,13 @@ def handleBonds (op : String) (j : Json) : Option (P Json) :=
         let guards := match cell with
           | some L => Json.bool (bondGuards elems pos L)
           | none => Json.null
+        -- optional "margin": the guards of bonds_eq_minimage_margin for that δ
+        let margin := fieldD j "margin" Json.null
+        let guardsM ← match cell, margin.isNull with
+          | some L, false => do pure (Json.bool (bondGuardsMargin elems pos L (← parseRat margin)))
+          | _, _ => pure Json.null
         pure (Json.mkObj [("pairs", Json.arr (r.map (fun p => nats [p.1, p.2])).toArray),
-                          ("slack", slack), ("guards", guards)])
+                          ("slack", slack), ("guards", guards), ("guards_margin", guardsM)])
   | "scan_min" => some do
       -- the smallest squared distance among the 27 scanned images, and the two cell guards of Props/C17Min.lean
       let p ← parseVec3 (← field j "p")
